@@ -266,6 +266,8 @@ func init() {
 	for _, n := range []string{"ReverseUint64", "ReverseInt64"} {
 		axiomContracts[ci+"."+n] = &Contract{Axiom: true, Post: []CIneq{cLE(cR(1), cLenP(0)), cGE(cR(1), cK(-1)), cLE(cR(1), cK(9))}}
 	}
+	// sort.Search(n, f) returns an index in [0, n] (standard library documentation)
+	axiomContracts["sort.Search"] = &Contract{Axiom: true, Post: []CIneq{cGE(cR(0), cK(0)), cLE(cR(0), cP(0))}}
 	// path/filepath.Ext returns a suffix of its argument (read from the standard library source)
 	axiomContracts["path/filepath.Ext"] = &Contract{Axiom: true, Post: []CIneq{cLE(cLenR(0), cLenP(0))}}
 	axiomContracts[ci+".ReverseSize"] =&Contract{Axiom: true, Post: []CIneq{cLE(cR(0), cLenP(0)), cGE(cR(0), cK(-1)), cLE(cR(0), cK(9))}}
